@@ -333,4 +333,69 @@ theorem mutateAddNode_check (weq : W → W → Bool) (hrefl : ∀ a, weq a a = t
     · intro e
       exact hnid (e ▸ (hw.wf.endpoints old holdmem).2)
 
+/-! ## non-vacuity, necessity of the registry hypothesis, and what the relations do not ask -/
+
+section Examples
+attribute [local instance] C01.drawScalar
+
+/-- the equality test on the example scalar (the driver passes bit equality on `Float`) -/
+def ieq : Int → Int → Bool := fun a b => decide (a = b)
+
+example : ∀ a, ieq a a = true := by simp [ieq]
+
+/-- the hypotheses of the three structural `_check` theorems hold of evolved genomes under a registry with records
+    of both kinds (`Props/C01.lean`) -/
+example : C01.WFT C01.ev2 ∧ C01.RegInv C01.evReg C01.ev2 ∧ C01.WFT C01.cs ∧ C01.RegInv C01.evReg C01.cs := by decide
+
+/-- successful runs exist, and the relations evaluate to `none` on them (here by evaluation, in general by the theorems) -/
+example : (match mutateAddNode C01.ev2 C01.evReg C01.mo [2, 2, 2] with
+           | .ok ((g', _, res), _) => res && (addNodeRel ieq C01.ev2 g').isNone
+           | .error _ => false) = true := by decide
+example : (match mutateAddLink C01.ev2 C01.evReg C01.mo [5, 1<<<32, 1<<<32, 1<<<32, 2<<<32, 3<<<32] with
+           | .ok ((g', _, res), _) => res && (addLinkRel ieq C01.ev2 g').isNone
+           | .error _ => false) = true := by decide
+example : (match mutateConnectSensors C01.cs C01.evReg [0, 0, 1, 3] with
+           | .ok ((g', _, res), _) => res && (connectSensorsRel ieq C01.cs g' res).isNone
+           | .error _ => false) = true := by decide
+/-- toggle-enable really disables a gene here (gene 2, 2→3: gene 6 still leaves node 2) -/
+example : (match mutateToggleEnable C01.ev1 2 [1 <<< 32, 0] with
+           | .ok (g', _) => g'.genes.map (·.en) == [false, false, true, true, true] &&
+                            ((paramOnlyRel C01.ev1 g').orElse (fun _ => toggleRel C01.ev1 g')).isNone
+           | .error _ => false) = true := by decide
+example : (match mutateGeneReEnable C01.ev1 with
+           | .ok g' => g'.genes.map (·.en) == [true, true, true, true, true] &&
+                       ((paramOnlyRel C01.ev1 g').orElse (fun _ => reenableRel ieq C01.ev1 g')).isNone
+           | .error _ => false) = true := by decide
+
+/-- a well-formed genome and a registry that is consistent in itself (`RegOk`) and above the genome's numbers
+    (`CounterAbove`) but whose node-split record for gene 1 carries the number 2 that gene 2 (another link) already
+    has: only `RegCompat` fails -/
+def clashG : Genome Int :=
+  { id := 1, traits := [⟨1, []⟩],
+    nodes := [⟨1, Kind.input, 4, none⟩, ⟨2, Kind.output, 4, none⟩, ⟨3, Kind.hidden, 4, none⟩],
+    genes := [⟨1, 1, 2, false, 5, 0, true, none⟩, ⟨2, 1, 3, false, 0, 0, true, none⟩] }
+def clashReg : Reg Int := { records := [⟨1, 1, 2, 2, 7, 0, 0, 5, 1, false⟩], nextInn := 7, nextNode := 5 }
+
+/-- **the registry hypothesis of `mutateAddNode_check` is necessary** (and the driver, which guards the C05 relations
+    with `WF` of the input only, relies on its generators handing it registries of really evolved populations):
+    on `clashG` / `clashReg` the MODEL's successful add-node yields the numbers [1, 2, 2, 7], and `addNodeRel`
+    - which finds the new genes by "number not among the old ones" - rejects it. -/
+theorem addNode_check_needs_regInv :
+    C01.WFT clashG ∧ C01.RegOk clashReg ∧ C01.CounterAbove clashReg clashG ∧ ¬ C01.RegCompat clashReg clashG ∧
+    (match mutateAddNode clashG clashReg C01.mo [5] with
+     | .ok ((g', _, res), _) => res && g'.genes.map (·.inn) == [1, 2, 2, 7] && (addNodeRel ieq clashG g').isSome
+     | .error _ => false) = true := by decide
+
+/-- **what `connectSensorsRel` does not ask** (DESIGN §3 says "result `false` ⇒ genome unchanged"; the theorem
+    `mutateConnectSensors_spec` proves it of the model; the relation does not test it): a result `false` together
+    with ONE added gene from the unconnected bias node 1 of `cutOff` (non-sensor nodes 3 and 4) passes; the same
+    genomes with result `true` do not.  For `mutAddLink` / `mutAddNode` the driver evaluates no relation at all on a
+    `false` result.  Such a deviation of the code is caught by the correspondence (model: unchanged), not by `spec`. -/
+example :
+    connectSensorsRel ieq cutOff { cutOff with genes := cutOff.genes ++ [⟨3, 1, 3, false, 0, 0, true, none⟩] } false = none ∧
+    connectSensorsRel ieq cutOff { cutOff with genes := cutOff.genes ++ [⟨3, 1, 3, false, 0, 0, true, none⟩] } true =
+      some "not-one-to-every-non-sensor" := by decide
+
+end Examples
+
 end GoNeat.C05
